@@ -200,7 +200,7 @@ func c01Explore(b *px.Built, r *px.Runner, famName string, idx int64, L, Lpos, N
 		case o.Panic != "":
 			report("parser-panic", w, "generated parser panicked: "+o.Panic)
 		case o.Hang != "":
-			report("parser-hang", w, "generated parser does not terminate: "+o.Hang)
+			report("parser-hang-"+o.HangKind, w, "generated parser does not terminate: "+o.Hang)
 		case o.Incon:
 			st.Inconcl++
 		default:
